@@ -55,6 +55,9 @@ class Findings:
     def __init__(self, path=None):
         path = path or os.path.join(env.HOME, 'known_findings.json')
         self.records = json.load(open(path))['findings'] if os.path.exists(path) else []
+        extra = os.environ.get('VERIF_EXTRA_FINDINGS')   # builders' scratch file, same format; never used by registered commands
+        if extra and os.path.exists(extra):
+            self.records = self.records + json.load(open(extra))['findings']
 
     def match(self, prop, site):
         """Return the 'known' record whose site equals `site` (exact) or None. 'fixed' records never match."""
